@@ -299,6 +299,10 @@ func (c *Ctx) classifyStore(w *walkInfo, fn *ssa.Function, st *ssa.Store) (strin
 		}) {
 			return "local", ""
 		}
+		// accumulator field of a collector object: w.found = append(w.found, v)
+		if isAppendOfField(P, st.Val, fa) {
+			return "accumulator", ""
+		}
 		return "state", fmt.Sprintf("field %s.%s of a shared object is assigned", typeStr(deref(fa.X.Type())), st2.Field(fa.Field).Name())
 	}
 	if _, ok := addr.(*ssa.IndexAddr); ok {
@@ -356,11 +360,42 @@ func (c *Ctx) dedupMapPerFile(w *walkInfo, mu *ssa.MapUpdate) (bool, string) {
 		if !ok {
 			return false, "map updated during the walk does not originate from a make(): " + short(P.termDesc(r, false))
 		}
+		// where the map comes into being from the point of view of the walking function: the make itself, or the
+		// call of the constructor helper that makes it (every call of that helper must be such a place)
+		madeAt := []*ssa.BasicBlock{mm.Block()}
 		if mm.Parent() != inspectFn {
-			return false, fmt.Sprintf("dedup map is created in %s, outside the per-file scope (%s) of the walk: what is reported in one file depends on the files visited before", FuncName(mm.Parent()), FuncName(inspectFn))
+			madeAt = nil
+			f := mm.Parent()
+			for depth := 0; depth < 3 && f != inspectFn; depth++ {
+				callers := P.Callers(f)
+				if len(callers) == 0 {
+					break
+				}
+				same := true
+				for _, cs := range callers {
+					if cs.Parent() != callers[0].Parent() {
+						same = false
+					}
+				}
+				if !same {
+					break
+				}
+				if callers[0].Parent() == inspectFn {
+					for _, cs := range callers {
+						madeAt = append(madeAt, cs.Block())
+					}
+					break
+				}
+				f = callers[0].Parent()
+			}
+			if len(madeAt) == 0 {
+				return false, fmt.Sprintf("dedup map is created in %s, outside the per-file scope (%s) of the walk: what is reported in one file depends on the files visited before", FuncName(mm.Parent()), FuncName(inspectFn))
+			}
 		}
-		if loop != nil && !loop[mm.Block()] {
-			return false, "dedup map is created outside the file loop that contains the walk"
+		for _, mb := range madeAt {
+			if loop != nil && !loop[mb] {
+				return false, "dedup map is created outside the file loop that contains the walk"
+			}
 		}
 		if loop == nil && inspectFn.Synthetic != "range-over-func yield" {
 			return false, "walk is not inside a per-file loop body"
